@@ -221,6 +221,12 @@ def reset_work(job):
         dm = rng.choice(['lua', 'promela'])
         ch, h1 = c01lib.make_case(sd % 1000003, 'lua', evcond=False)
         h2 = [rng.choice(C.EVENTS) for _ in range(rng.randint(1, 4))]
+        if sd % 4 == 0:
+            # what a history remembers belongs to the session that ends: the first life records one (e1.. walks, e2 leaves S), the second
+            # life starts outside S and enters it through the history before S was ever active
+            ch, _ = C.gen_hist_chart(sd)
+            ch.root.initial_attr = ['O']; ch.reindex()
+            h1 = ['e3'] + ['e1'] * rng.randint(1, 3) + ['e2']; h2 = ['e3', 'e1']
         ref = c01lib.ref_run(ch, h1); ref2 = c01lib.ref_run(ch, h2)
         if ref.diverged or ref2.diverged: continue
         if dm == 'lua' and rng.random() < 0.5:
